@@ -242,9 +242,9 @@ func c18Lengths(unit byte, thorough bool) []int {
 	}
 	switch unit {
 	case 'H':
-		add(0, 72)
+		add(0, 48) // every start hour x every end hour across one and two day boundaries
 		if thorough {
-			add(73, 24*8)
+			add(49, 24*8)
 		}
 		// long straddles: whole months / leap february / a year, +-1h
 		for _, d := range []int{27, 28, 29, 30, 31, 32, 59, 60, 61, 62, 365, 366, 367, 425} {
@@ -253,10 +253,11 @@ func c18Lengths(unit byte, thorough bool) []int {
 			}
 		}
 	case 'D':
-		add(0, 72)
-		add(73, 430) // every straddle up to 14 months
+		add(0, 200) // every straddle up to 6.5 months
 		if thorough {
-			add(431, 800)
+			add(201, 800)
+		} else {
+			ls = append(ls, 364, 365, 366, 367, 396, 397, 425, 426, 427, 428, 429, 430) // year / 13 / 14 month straddles
 		}
 	case 'M':
 		add(0, 72)
@@ -268,7 +269,7 @@ func c18Lengths(unit byte, thorough bool) []int {
 
 var c18Seen sync.Map // decomposition shapes already counted (keeps the hot loop off the Check mutex)
 
-func c18RunRanges(c *vx.Check, from, to time.Time) {
+func c18RunRanges(c *vx.Check, from, to time.Time, fullHours bool) {
 	type job struct {
 		q TimeQuantum
 		s time.Time
@@ -277,12 +278,12 @@ func c18RunRanges(c *vx.Check, from, to time.Time) {
 	for _, q := range c18Quanta {
 		u := c18Finest(q)
 		f, t := from, to
-		if u == 'H' && !c.Thorough() && to.Sub(from) > 430*24*time.Hour {
-			// quick tier: hour-aligned starts are limited to 14 months of the window (year end, leap
-			// February and every month length are inside); thorough uses the whole window.
+		if u == 'H' && !fullHours && to.Sub(from) > 430*24*time.Hour {
+			// hour-aligned starts are limited to 14 months of the window (year end, leap February and
+			// every month length are inside); thorough uses the whole of the first window.
 			f = time.Date(from.Year(), 12, 1, 0, 0, 0, 0, time.UTC)
 			t = time.Date(from.Year()+2, 2, 1, 0, 0, 0, 0, time.UTC)
-			c.Bound("hour_starts_window_quick", c18TS(f)+".."+c18TS(t))
+			c.Bound("hour_starts_window_"+strconv.Itoa(from.Year()), c18TS(f)+".."+c18TS(t))
 		}
 		for s := c18Start(f, u); s.Before(t); s = c18Step(s, u, 1) {
 			jobs = append(jobs, job{q, s})
@@ -638,18 +639,18 @@ func TestVerif_C18(t *testing.T) {
 	if c.Thorough() {
 		wins = append(wins,
 			win{time.Date(2099, 1, 1, 0, 0, 0, 0, time.UTC), time.Date(2102, 1, 1, 0, 0, 0, 0, time.UTC)}, // 2100 is not a leap year
-			win{time.Date(1999, 1, 1, 0, 0, 0, 0, time.UTC), time.Date(2001, 1, 1, 0, 0, 0, 0, time.UTC)}) // 2000 is
+			win{time.Date(1999, 1, 1, 0, 0, 0, 0, time.UTC), time.Date(2002, 1, 1, 0, 0, 0, 0, time.UTC)}) // 2000 is
 	}
 	var ws []string
 	t0 := time.Now()
 	defer debug.SetGCPercent(debug.SetGCPercent(800)) // allocation-heavy code under test, tiny live heap
 	c18RunQueries(c)
 	fmt.Printf("INFO C18 queries done after %.1fs\n", time.Since(t0).Seconds())
-	for _, w := range wins {
+	for wi, w := range wins {
 		ws = append(ws, c18TS(w.from)+".."+c18TS(w.to))
 		c18RunNames(c, w.from, w.to)
 		fmt.Printf("INFO C18 names %s done after %.1fs\n", ws[len(ws)-1], time.Since(t0).Seconds())
-		c18RunRanges(c, w.from, w.to)
+		c18RunRanges(c, w.from, w.to, c.Thorough() && wi == 0)
 		fmt.Printf("INFO C18 ranges %s done after %.1fs\n", ws[len(ws)-1], time.Since(t0).Seconds())
 	}
 	c.Bound("windows", ws)
